@@ -74,8 +74,14 @@ def run(rep, tier):
         body = stimtext.parse(text, names)
         reduce_ = rng.random() < 0.5
         use_filter = rng.random() < 0.3
+        custom = None
+        if use_filter and rng.random() < 0.6:
+            custom = custom_filter(rng, svh, text)
         try:
-            out = svh.request('explain', [int(reduce_), int(use_filter)], text)
+            if custom is not None:
+                out = svh.request('explain', [int(reduce_), 2], text + '\n' + '\n'.join('@D ' + l for l in custom[0]))
+            else:
+                out = svh.request('explain', [int(reduce_), int(use_filter)], text)
         except core.Crash as e:
             rep.violation('ErrorMatcher::explain_errors_from_circuit', 'crash', text, str(e) + e.stderr[-1000:])
             continue
@@ -171,6 +177,13 @@ def run(rep, tier):
         dm = svh.request('analyze', [0, 0, 0, 1.0, 0, 0, 1], text)
         if dm and not dm[-1].startswith('ERR'):
             want = set(s for p, s in demtext.flatten(demtext.parse('\n'.join(dm[1:])))[0] if s and p > 0)
+            if custom is not None:
+                want = custom[1]
+                extra = set(t for t, locs in errors) - want
+                if extra:
+                    rep.violation('ErrorMatcher::explain_errors_from_circuit', 'wrong-result', {'circuit': text, 'reduce': reduce_, 'filter': custom[0]},
+                                  'explained errors %s are not errors of the supplied filter model (its errors, duplicates cancelled: %s)'
+                                  % ([sorted(x) for x in list(extra)[:3]], [sorted(x) for x in list(want)[:6]]))
             got = set(t for t, locs in errors)
             missing = [sorted(s) for s in want - got]
             if missing:
@@ -225,6 +238,41 @@ def add_coordinates(rng, body, nq):
                 r.append(Instr('QUBIT_COORDS', [float(rng.randrange(6))], [T('q', rng.randrange(nq))]))
         return r
     return out + go(body, 0)
+
+
+def custom_filter(rng, svh, text):
+    """a caller-supplied filter: a subset of the circuit's own errors, written with suggested-decomposition separators, repeated
+    (cancelling) targets and shuffled order; returns (dem lines, set of symptom sets with duplicates cancelled) or None"""
+    dm = svh.request('analyze', [0, 0, 0, 1.0, 0, 0, 1], text)
+    if not dm or dm[-1].startswith('ERR'):
+        return None
+    errs = [s for p, s in demtext.flatten(demtext.parse('\n'.join(dm[1:])))[0] if s and p > 0]
+    if not errs:
+        return None
+    allt = sorted(set(t for s in errs for t in s))
+    pick = [s for s in errs if rng.random() < 0.7] or [errs[0]]
+    lines = []
+    want = set()
+    for s in pick:
+        ts = sorted(s)
+        rng.shuffle(ts)
+        k = rng.random()
+        if k < 0.35:
+            x = rng.choice(allt)                      # a cancelling pair split over two components
+            pos = rng.randrange(len(ts) + 1)
+            ts = ts[:pos] + [x, '^', x] + ts[pos:]
+        elif k < 0.55:
+            x = rng.choice(allt)                      # a cancelling pair around other targets
+            ts = [x] + ts + [x]
+        elif k < 0.7 and len(ts) >= 2:
+            ts.insert(rng.randrange(1, len(ts)), '^')
+        elif k < 0.8:
+            x = rng.choice(ts)                        # a target listed three times
+            ts = ts + [x, x]
+        ts = [t for j, t in enumerate(ts) if not (t == '^' and (j == 0 or j == len(ts) - 1))]
+        lines.append('error(%s) %s' % (rng.choice(['0.125', '0.01', '0.5']), ' '.join(ts)))
+        want.add(frozenset(s))
+    return lines, want
 
 
 def replay(path):
